@@ -105,8 +105,7 @@ def run(check, an: Analysis):
             mut = _mutations(path, mutation, ev)
             succeeded = [e for e in path.events if e.kind == 'call' and isinstance(
                 e.node, ast.Call) and rules.text_at(path, e, e.node.func) == '%s.succeed' % ev]
-            returned = path.kind == 'return' and isinstance(path.outcome[1], ast.Constant) \
-                and path.outcome[1].value is True
+            returned = _returns_true(path)
             if path.normal:
                 agree = bool(mut) == bool(succeeded) == returned and len(mut) <= 1
                 check.instance('S', '%s:%s' % (label, 'granted' if mut else 'refused'),
@@ -136,6 +135,7 @@ def run(check, an: Analysis):
         ev = fn.node.args.args[1].arg
         label = '%s._do_get' % cls_qn.rsplit('.', 1)[-1]
         seen = set()
+        takers = {}
         for path in an.paths(callee):
             if not path.normal:
                 continue
@@ -145,22 +145,30 @@ def run(check, an: Analysis):
             failed = any(e.kind == 'handler' and e['exc'] == exc for e in path.events)
             succeeded = [e for e in path.events if e.kind == 'call' and isinstance(
                 e.node, ast.Call) and rules.text_at(path, e, e.node.func) == '%s.succeed' % ev]
-            returned = path.kind == 'return' and isinstance(path.outcome[1], ast.Constant) \
-                and path.outcome[1].value is True
-            if failed:
+            returned = _returns_true(path)
+            for e in path.events:
+                if e.kind == 'call' and isinstance(e.node, ast.Call) and e.depth == 0:
+                    fails = _may_find_nothing(path, e, popper)
+                    if fails is not None:
+                        takers.setdefault(id(e.node), (e, set()))[1].add(
+                            e.get('exit') if fails else 'default')
+            if failed or not pops:
+                # nothing there (signalled by the exception or by a default value)
                 ok = not pops and not succeeded and not returned
                 seen.add('empty')
             else:
                 ok = len(pops) == 1 and len(succeeded) == 1 and returned and \
                     _succeeds_with_popped(succeeded[0], pops[0], fn)
                 seen.add('item')
-            check.instance('S', '%s:%s' % (label, 'refused' if failed else 'granted'), ok,
+            check.instance('S', '%s:%s' % (label, 'granted' if pops else 'refused'), ok,
                            where_fn(fn), 'an item is handed out exactly when one was taken; '
-                           'an empty store (%s) refuses' % exc.replace('ext:', ''),
-                           path=rules.path_lines(path))
-        check.instance('G', '%s:guard' % label, seen == {'empty', 'item'}, where_fn(fn),
-                       'taking from an empty store is caught (%s), never goes negative'
-                       % exc.replace('ext:', ''))
+                           'an empty store refuses', path=rules.path_lines(path))
+        uncaught = [e for e, exits in takers.values() if exits == {'normal'}]
+        check.instance('G', '%s:guard' % label, seen == {'empty', 'item'} and not uncaught
+                       and bool(takers), uncaught[0].where if uncaught else where_fn(fn),
+                       'taking from an empty store is caught (%s) or answered with a default '
+                       'value, never goes negative (%d taking calls)'
+                       % (exc.replace('ext:', ''), len(takers)))
     # Resource release: idempotent and always granted (named exception)
     rel = an.callee(RESOURCE, '_do_get')
     ok = True
@@ -169,8 +177,7 @@ def run(check, an: Analysis):
             succeeded = any(e.kind == 'call' and isinstance(e.node, ast.Call) and
                             rules.text_at(path, e, e.node.func).endswith('.succeed')
                             for e in path.events)
-            ok &= succeeded and path.kind == 'return' and isinstance(
-                path.outcome[1], ast.Constant) and path.outcome[1].value is True
+            ok &= succeeded and _returns_true(path)
     removes = [n for n in ast.walk(rel.fn.node) if isinstance(n, ast.Call)
                and ast.unparse(n.func) == 'self.users.remove']
     check.instance('S', 'Resource._do_get:release-always-succeeds', ok and len(removes) == 1
@@ -420,15 +427,18 @@ def run(check, an: Analysis):
                        ok and found == ops, where_fn(init),
                        'items kept in a %s, operations %s' % (kind, sorted(found)))
     fget = an.method(FILTERSTORE, '_do_get')
-    nexts = [n for n in ast.walk(fget.node) if isinstance(n, ast.Call)
-             and ast.unparse(n.func) == 'next']
-    ok = False
-    if len(nexts) == 1 and isinstance(nexts[0].args[0], ast.GeneratorExp):
-        gen = nexts[0].args[0]
-        comp = gen.generators[0]
-        ok = ast.unparse(comp.iter) == 'enumerate(self._items)' and len(comp.ifs) == 1 and \
-            isinstance(comp.target, ast.Tuple) and \
-            ast.unparse(gen.elt) == ast.unparse(comp.target.elts[0])
+    fev = fget.node.args.args[1].arg
+    ok, n_taken = True, 0
+    for path in an.paths(an.callee(FILTERSTORE, '_do_get')):
+        for index, event in enumerate(path.events):
+            node = event.node
+            if not (event.kind == 'call' and isinstance(node, ast.Call) and event.depth == 0
+                    and rules.text_at(path, event, node.func) == 'self._items.pop'):
+                continue
+            n_taken += 1
+            ok = ok and len(node.args) == 1 and _first_match_search(
+                path, index, node.args[0], fev)
+    ok = ok and n_taken > 0
     check.instance('F', 'FilterStore._do_get:first-match', ok, where_fn(fget),
                    'the first item accepted by the filter, by forward scan')
     # head-of-line blocking: request dependent _do_get behind the generic takewhile trigger
@@ -658,6 +668,51 @@ def _mutations(path, mutation, ev):
                                              'extend', 'pop', 'popleft', 'remove', 'clear'):
                 result.append(index)
     return result
+
+
+def _first_match_search(path, index, position, ev) -> bool:
+    """``position`` is ``next(i for i, item in enumerate(self._items) if <filter>(item))``
+    -- with or without a default -- where <filter> is the request's filter"""
+    found = rules.value_expr(path, index, position)
+    if not (isinstance(found, ast.Call) and ast.unparse(found.func) == 'next'
+            and found.args and isinstance(found.args[0], ast.GeneratorExp)):
+        return False
+    gen = found.args[0]
+    if len(gen.generators) != 1:
+        return False
+    comp = gen.generators[0]
+    if not (ast.unparse(comp.iter) == 'enumerate(self._items)' and len(comp.ifs) == 1
+            and isinstance(comp.target, ast.Tuple) and len(comp.target.elts) == 2
+            and ast.unparse(gen.elt) == ast.unparse(comp.target.elts[0])
+            and not comp.is_async):
+        return False
+    test = comp.ifs[0]
+    return isinstance(test, ast.Call) and not test.keywords and \
+        [ast.unparse(a) for a in test.args] == [ast.unparse(comp.target.elts[1])] and \
+        ast.unparse(test.func) == '%s.filter' % ev
+
+
+def _returns_true(path) -> bool:
+    if path.kind != 'return' or path.outcome[1] is None:
+        return False
+    value = rules.value_expr(path, len(path.events), path.outcome[1])
+    return isinstance(value, ast.Constant) and value.value is True
+
+
+def _may_find_nothing(path, event, popper) -> bool:
+    """a call that fails on an empty source: the pop itself, or ``next`` without default"""
+    node = event.node
+    if rules.text_at(path, event, node.func) == popper:
+        # taking the position a search just found cannot fail: the search is what may
+        # find nothing
+        found = [rules.value_expr(path, rules.event_index(path, event), a)
+                 for a in node.args]
+        if any(isinstance(a, ast.Call) and ast.unparse(a.func) == 'next' for a in found):
+            return None
+        return True
+    if any(ext[-1].split('.')[-1] == 'next' for ext in event.get('externals') or ()):
+        return len(node.args) == 1
+    return None
 
 
 def _succeeds_with_popped(succeed_event, pop_event, fn) -> bool:
